@@ -267,4 +267,13 @@ Definition efilter (bs : blocks) (l : list Z) : blocks :=
             flat_map (fun i => match lookup i flat with
                                | Some (t, v) => if Nat.eqb t (fst b) then [(i, v)] else []
                                | None => [] end) present)) bs).
+(* FEMElementalAttribute.generate_elemental_attribute(name, ids, data) with
+   tbl = DataFrame(data, index=ids): per type the ids of the block that occur
+   in tbl (np.intersect1d: ascending, once each) with the row tbl holds for
+   that id; types without any such id are left out *)
+Definition egenerate {W} (bs : list (nat * table W)) (tbl : table V) : blocks :=
+  filter (fun b => negb (Nat.eqb (length (snd b)) 0))
+    (map (fun b => (fst b,
+            flat_map (fun i => match lookup i tbl with Some v => [(i, v)] | None => [] end)
+                     (uniqueZ (ids (snd b))))) bs).
 End Elemental.
